@@ -6,20 +6,28 @@ SPEC = {
     "pid": "C04",
     "facts": [],
     "bin": "c01",
-    "requires": "From AG Require Import ExecCheck.",
+    "requires": "From AG Require Import ExecCheck.\nFrom AG Require Import SchedCheck.",
     "def_type": "schema",
     "streams": [
         {"kind": "CASE", "type": CASE_T,
          "eval": "fun c => let '(s, w, d, op, v, r) := c in check_c04 s w d op v 300 r", "per_shard": 25},
+        # second half (serial mutation roots) on the DYNAMIC executor and on the derive schema: gated runs of c04d.rs
+        {"kind": "DSCHED", "type": "dcase", "eval": "check_dsched", "per_shard": 150},
     ],
+    "extra_bins": [{"bin": "c04d", "extra_args": ["4", "30", "1500"], "n_factor": 0.25}],
     "classes": {7: "repeated-key-resolved-per-occurrence"},
     "n_quick": 400, "n_thorough": 8000,
     "level": "proof",
-    "what_violation": "a resolver ran more often than once per collected response key of its parent object",
+    "what_violation": ("a resolver ran more often than once per collected response key of its parent object (stream CASE), or the root fields of a "
+                       "mutation overlapped / left document order in the Start/End log, or the data changed with the completion order (stream DSCHED)"),
     "rule": ("C01 generator (repeated response keys directly, through aliases and through fragments, queries and mutations); the resolver invocation "
              "trace (node, field) recorded by the data-driven resolvers is compared with the model's and with the specification's one-invocation-per-group trace; "
-             "distinct by case text"),
-    "trusted": ["harness trace recording", "differential sampling: Exec.v impl model = real executor"],
+             "distinct by case text. Stream DSCHED (c04d.rs): generated mutations (2-4 root fields, aliases, repeated keys, inline/named fragments on the root, "
+             "nested sub-selections and lists) and queries on a dynamic::Schema with gated logging resolvers and on the derive family schema, driven by manual "
+             "polling under every order of gate openings (<= 30 per document, random beyond); verdict: the Start/End log splits into consecutive segments "
+             "per root-field occurrence in document order (queries may overlap) and the data equals the all-ready run's"),
+    "trusted": ["harness trace recording", "differential sampling: Exec.v impl model = real executor",
+                "c04d scheduler (manual polling, oneshot gates), root response keys computed from the parsed document"],
     "assumptions": ["resolvers complete immediately (completion-order dependence of the serial mutation order is the subject of the gated runs, not of this stream)"],
 }
 
@@ -30,7 +38,9 @@ MANIFEST = {
              "invoked more often than the specification's grouped execution invokes it. Refuted today (recorded finding): repeated response keys run the "
              "resolver once per occurrence, e.g. mutation { a{id} a{id} } runs Mutation.a twice. Second half: C04_serial / C04_serial_order (scheduler model "
              "Sched.v): for every completion schedule the event log of a mutation splits into consecutive per-root-field segments; the scheduler "
-             "model is tied to the code by the gated, exhaustively scheduled runs of check C05 (which include mutations)."),
+             "model is tied to the code by the gated, exhaustively scheduled runs of check C05 (which include mutations), and the serial order itself is judged on "
+             "the real event logs of the dynamic executor (src/dynamic/resolve.rs, schema.rs) and of the derive schema by SchedCheck.check_dsched, a test that "
+             "every log of the model's serial loop passes (serial_model_passes_check)."),
     "note": "trusted: Coq kernel, harness, sampled agreement; no axioms. The serial-order theorems are about Sched.v, whose correspondence runs live in check C05.",
 }
 
